@@ -15,7 +15,7 @@ PROPS = {
     "C12": dict(tier_a=[], tier_b="bounded.c12"),
     "C13": dict(tier_a=["contracts.tokenizer", "contracts.parser_cursor", "contracts.errors_funnel"], tier_b="bounded.c13"),
     "C14": dict(tier_a=["contracts.errors_funnel", "contracts.generator_fmt"], scans=["c14"], tier_b="bounded.c14"),
-    "C15": dict(tier_a=["contracts.generator_fmt"], scans=["c15"], tier_b="bounded.c15"),
+    "C15": dict(tier_a=["contracts.generator_fmt", "contracts.schema_cache"], scans=["c15"], tier_b="bounded.c15"),
     "C17": dict(tier_a=[], tier_b="bounded.c17"),
     "C18": dict(tier_a=["contracts.schema_cache"], tier_b="bounded.c18"),
     "C20": dict(tier_a=["contracts.diff_acct"], tier_b="bounded.c20"),
